@@ -106,7 +106,7 @@ PROPS = {
         'Each evaluation is one seeded history of 10-40 operations; removers are built in storage pre-filled with a plan-chosen pattern, one target variant is a CallbackList whose mutexes (the remover\'s own too) are real SpinLocks run inside one simulated task. The second stage runs 4-12 operation histories under fault enumeration, including throwing event hash / == inside reset() and re-targeting (an interrupted reset leaves the remover responsible). Non-trivial = a listener is added through a remover; distinct = distinct plan hashes.'),
     'C16': seq_prop('seq_remover', [st('c16', 'seq_remover', 'c16', 1000000, 8000000)],
         'seeded trigger histories for CounterRemover / ConditionalRemover incl. re-entrant triggers from the wrapped listener, queued triggers and direct removals, in lockstep with a counting model (snapshot semantics for the listener lists)',
-        'Seeded search over histories with counts n in [-3,5], condition outcome sequences as bit patterns, conditions with and without the trigger argument that keep their own evaluation count inside the callable (the stored condition object itself must be the one evaluated on every trigger), plain listeners before/after, direct and queued triggers, re-entrant triggers of the same key from inside the wrapped listener, and direct removals, on CallbackList, EventDispatcher, EventQueue and HeterEventDispatcher. The helper objects are temporaries destroyed before the first trigger. Every listener call and every condition evaluation is checked when it happens.',
+        'Seeded search over histories with counts n in [-3,5], condition outcome sequences as bit patterns, conditions with and without the trigger argument (returning int 4/0 resp. long 2/0, not bool: the library must convert, not compare with true) that keep their own evaluation count inside the callable (the stored condition object itself must be the one evaluated on every trigger), plain listeners before/after, direct and queued triggers, re-entrant triggers of the same key from inside the wrapped listener, and direct removals, on CallbackList, EventDispatcher, EventQueue and HeterEventDispatcher. The helper objects are temporaries destroyed before the first trigger. Every listener call and every condition evaluation is checked when it happens.',
         'Trusted: the counting model. Wrapped listeners cannot be identified by enumeration, so attachment is observed through triggers (two closing trigger rounds per list).',
         'Each evaluation is one seeded history of 10-40 operations on CallbackList, EventDispatcher, EventQueue or one of two HeterEventDispatcher targets (<void(int), void()>; <void(Derived), void(Base&)> with listeners taking Base&, every trigger preceded by one of the other prototype). Non-trivial = a listener is added through CounterRemover or ConditionalRemover; distinct = distinct plan hashes.'),
     'C17': seq_prop('seq_anydata', [st('c17', 'seq_anydata', 'c17', 2000000, 20000000), st('c17-faults', 'seq_anydata', 'c09', 60000, 600000)],
@@ -142,7 +142,7 @@ PROPS = {
         'Trusted: the models; the moved-from std::map is assumed empty (true for libstdc++). Self-move-assignment is not generated. The heterogeneous classes run in the third stage (same pool operations on HeterCallbackList, HeterEventDispatcher, HeterEventQueue); the fourth stage copies dispatchers/queues that carry MixinFilter / MixinHeterFilter filters and checks that the copy runs the same filters in the same order.',
         'Each evaluation is one seeded history over a pool of up to 4 (lists/dispatchers) or 3 (queues) objects. Non-trivial = the history contains a copy/move/assign/swap; distinct = distinct plan hashes.'),
     'C08': seq_prop('seq_list', [st('c08-list', 'seq_list', 'c08', 250000, 5000000), st('c08-queue', 'seq_queue', 'c08', 200000, 4000000),
-         st('c08-exceptions-list', 'seq_list', 'c09', 6000, 200000, 120, 1200), st('c08-exceptions-queue', 'seq_queue', 'c09', 4000, 120000, 120, 1200), st('c08-exceptions-anydata', 'seq_anydata', 'c09', 30000, 300000, 120, 1200)],
+         st('c08-exceptions-list', 'seq_list', 'c09', 6000, 200000, 120, 1200), st('c08-exceptions-queue', 'seq_queue', 'c09', 4000, 120000, 120, 1200), st('c08-exceptions-anydata', 'seq_anydata', 'c09', 30000, 300000, 120, 1200), st('c08-exceptions-heter', 'seq_heter', 'c09', 4000, 120000, 120, 1200)],
         'live-instance ledger enforced as an invariant at every quiescent point of seeded ownership-stress programs (removal during invocation, recycled slots, copy/move/swap chains, clearEvents, destruction with pending events, generation-counter jumps), under ASan; the same ledger is also an invariant of every C03/C06/C07/C11 simulated schedule and of every C09 fault run',
         'Every construction and destruction of every harness callback, listener and argument object is recorded by address. Immediately flagged: double destruction, copy/move/invoke of a non-live or wrong-type instance. At every quiescent point: a callback that is in no container has no live instance, a stored one has at least one per holder; arguments of cleared events are gone when clearEvents returns; after destroying every container nothing is alive.',
         'Trusted: the ledger (sim/ledger.h). The number of transient copies std::function makes is never counted, only liveness at quiescence. The documentation lets queue slots keep arguments until reuse; the check asks no more than the statement.',
